@@ -345,6 +345,13 @@ func (cc *connectUnaryClientConn) Spec() Spec {
 
 func (cc *connectUnaryClientConn) Send(msg any) error {
 	if err := cc.marshaler.Marshal(msg); err != nil {
+		if !errors.Is(err, io.EOF) {
+			// The one message of this call couldn't be sent. In this protocol an
+			// empty request body is a valid (zero-valued) message, so closing the
+			// request normally would make the server run the RPC on a message we
+			// never sent: fail the call instead, which aborts the request body.
+			cc.duplexCall.SetError(err)
+		}
 		return err
 	}
 	return nil // must be a literal nil: nil *Error is a non-nil error
